@@ -400,9 +400,19 @@ func init() {
 				}
 			}
 			if c := m.Conns[1]; c.Open && c.Sess != nil {
-				evs = append(evs, Ev{K: "pose", C: 1, X: 0})
+				evs = append(evs, Ev{K: "pose", C: 1, X: 0}, Ev{K: "close", C: 1})
+				if len(m.Sessions) < 2 {
+					evs = append(evs, Ev{K: "join", C: 1, X: -1}) // switch with an update possibly pending
+				}
 			}
-			if anyPending(m) {
+			// frames keep coming whoever has left meanwhile
+			pending := false
+			for _, c := range m.Conns {
+				if len(c.Pending) > 0 {
+					pending = true
+				}
+			}
+			if pending && len(liveSessions(m)) > 0 {
 				evs = append(evs, Ev{K: "tick"})
 			}
 			return evs
